@@ -26,6 +26,9 @@ func (e *Engine) addOblig(st *State, kind, clause string, props []string, goal *
 		return
 	}
 	ctx := e.cur
+	if ctx.fc != nil && ctx.fc.Opts["props"] != "" {
+		props = append(append([]string(nil), props...), strings.Fields(ctx.fc.Opts["props"])...)
+	}
 	name := ctx.name(st, kind, clause)
 	o := &Oblig{Name: name, Kind: kind, Props: props, Func: funcDisplay(ctx.fn), Goal: goal, Pos: e.posString(pos)}
 	if goal == smt.True {
@@ -66,6 +69,34 @@ func (e *Engine) nonNil(st *State, ref *smt.Term, pos token.Pos) {
 	}
 	e.safety(st, "nil-deref", smt.Ne(ref, smt.IntC(0)), pos)
 	st.nonnil[ref] = true
+}
+
+// wrapAll: in thin safety sweeps int/int64 arithmetic on data wraps silently (Go semantics) instead of raising an obligation.
+func (e *Engine) wrapAll() bool {
+	return e.cur != nil && e.cur.fc != nil && e.cur.fc.Opts["sweep"] != ""
+}
+
+// assumeTypeInv assumes the declared invariant of the pointee type of p (typeinv clauses; trusted).
+func (e *Engine) assumeTypeInv(st *State, p PtrV) {
+	if len(p.Path) != 0 || e.pure > 0 {
+		return
+	}
+	n, ok := p.Base.(*types.Named)
+	if !ok || n.Obj().Pkg() == nil {
+		return
+	}
+	pred, ok := e.TypeInvs[n.Obj().Pkg().Path()+"."+n.Obj().Name()]
+	if !ok {
+		return
+	}
+	key := smt.Var("typeinv!"+n.Obj().Name(), smt.Int)
+	mark := smt.Eq(key, p.Ref)
+	if st.facts[mark] {
+		return
+	}
+	st.facts[mark] = true
+	env := &Env{e: e, st: st, old: st, vars: map[string]Value{"self": p}, pkg: e.SSAPkgs[n.Obj().Pkg().Path()]}
+	st.assume(e.evalBool(env, pred.Body))
 }
 
 // safety records an implicit safety obligation (property C06 by convention).
@@ -337,7 +368,7 @@ func recordRange(t types.Type, v Value) {
 
 func (e *Engine) intBinOp(st *State, op token.Token, t types.Type, x, y *smt.Term, yt types.Type, pos token.Pos) *smt.Term {
 	arith := func(r *smt.Term) *smt.Term {
-		if exactInt(t) {
+		if exactInt(t) && !e.wrapAll() {
 			lo, hi := intRange(t)
 			if l, h, ok := bounds(r); ok && l.Cmp(lo) >= 0 && h.Cmp(hi) <= 0 {
 				return r
@@ -724,7 +755,15 @@ func (e *Engine) convert(st *State, v Value, from, to types.Type, pos token.Pos)
 		s := v.(StrV)
 		et := to.Underlying().(*types.Slice).Elem()
 		if b, ok := et.Underlying().(*types.Basic); !ok || b.Kind() != types.Uint8 {
-			panic(unsupported("string to non-byte slice"))
+			// []rune(s): decoded contents are opaque, length at most len(s)
+			id := st.newID()
+			st.assume(smt.Lt(smt.IntC(0), id))
+			n := smt.Fresh("runes", smt.Int)
+			st.assume(smt.Le(smt.IntC(0), n))
+			st.assume(smt.Le(n, s.Len))
+			st.assume(smt.Implies(smt.Lt(smt.IntC(0), s.Len), smt.Lt(smt.IntC(0), n)))
+			e.note("[]rune(string) conversion: contents opaque at " + e.posString(pos))
+			return SliceV{Arr: id, Off: smt.IntC(0), Len: n, Cap: n, Elem: et}
 		}
 		id := st.newID()
 		var contents *smt.Term
@@ -743,6 +782,8 @@ func (e *Engine) convert(st *State, v Value, from, to types.Type, pos token.Pos)
 		h := st.heap(name, smt.IIArr)
 		st.setHeap(name, smt.Store(h, id, contents))
 		return SliceV{Arr: id, Off: smt.IntC(0), Len: s.Len, Cap: s.Len, Elem: et}
+	case sf == shSlice && stt == shStr && false:
+		return v
 	case sf == shInt && stt == shStr:
 		// string(rune): opaque utf8 encoding
 		r, f := freshValue("runestr", to)
